@@ -16,7 +16,7 @@ RULE = ("Model-based histories: Hypothesis draws a router configuration (fallbac
         "None) / startTestRun / stopTestRun / status operations whose legality is tracked while drawing; "
         "every sink's log is compared with a reference router (prefix rule > id rule > fallback > raise). "
         "Second generator: events pushed through 1..3 nested StreamToQueue(code) and popped by nested "
-        "routers with consuming rules must arrive unchanged. Also: any positional prefix of status(), omitted defaults and flags given as 1/0, sinks that compare equal and cannot be hashed, rules added mid-run must have been started when add_rule returns. "
+        "routers with consuming rules must arrive unchanged. Also: any positional prefix of status(), omitted defaults and flags given as 1/0 (a router that refuses a non-bool flag gets the bool), sinks that compare equal and hash alike, rules added mid-run must have been started when add_rule returns. "
         "Also: the three spellings of add_rule and of the constructor (flag by keyword, flag positional, everything by "
         "keyword) with the constructor's flag given as 1/0 too; segments and test ids that are neighbours of a rule "
         "(case, blank, regex wildcard, dotted child, an id that equals a prefix), half of the events aimed at a "
@@ -32,14 +32,27 @@ RULE = ("Model-based histories: Hypothesis draws a router configuration (fallbac
 ASSUMPTIONS = [
     "a prefix / test id is registered at most once per router (re-registration is documented as undefined)",
     "a sink object is registered for start/stop at most once (twice would legitimately double the calls)",
+    "sinks are told apart by identity: two sink objects that compare equal (and hash alike) are two sinks, each gets "
+    "its own events and start/stop calls; sinks are hashable, as every StreamResult of the library is",
+    "flags ('If True' / 'If False' in the docstrings) are given as True / False or as 1 / 0; a router may read them by "
+    "truthiness or refuse the non-bool, without effect - the call is then repeated with the bool",
+    "re-entrant use, which the statement's linear histories do not cover: a sink may call add_rule from inside its "
+    "own status() and hand the event to router.status() again (the class docstring's 'create them as-needed from the "
+    "fallback handler'), and from inside its startTestRun/stopTestRun; the router does not block (a hang is "
+    "reported); it may refuse the nested status(), or the add_rule made from inside startTestRun/stopTestRun, with an "
+    "exception and without delivering anything - the model then takes the refused call as not made; add_rule from "
+    "inside the fallback's status() has to work; a rule that was registered from inside startTestRun gets its start "
+    "in that run",
     "well-formed run brackets: startTestRun and stopTestRun alternate",
     "a rule registered from inside a sink's stopTestRun, i.e. while the run is being closed, may be treated either "
     "way: the new sink gets startTestRun and stopTestRun in that same dispatch, or neither; only the unbalanced "
     "outcomes are violations (the statement does not say whether the run is still 'in progress' at that point)",
-    "invalid rules (unknown policy, an argument the policy does not take, a route prefix of more than one step) are "
-    "rejected with some exception and without any effect; the statement is silent about them, the add_rule docstring "
-    "promises the first two and the code the third - a router that gave multi-step prefixes a meaning would need a "
-    "new model",
+    "invalid rules (unknown policy, an argument the policy does not take) are rejected with some exception and "
+    "without any effect - in particular the sink is not registered for start/stop; the statement is silent about "
+    "them, the add_rule docstring promises the exception. A route prefix of more than one step is refused only by "
+    "the code: a router may refuse it (without effect) or take it as a rule that no event matches, since only the "
+    "first segment is looked up, whose sink is registered for start/stop as for any rule - a router that gave "
+    "multi-step prefixes a meaning would need a new model",
     "add_rule(sink, policy, do_start_stop_run, **policy_args) and StreamResultRouter(fallback, do_start_stop_run) "
     "accept their parameters positionally or by these names (the documented signatures)",
     "a field is 'unchanged' when it compares equal, has the same type (for test_tags: is still a set or frozenset) "
@@ -155,12 +168,14 @@ def _watchdog():
     def on_alarm(signum, frame):
         raise _Hang()
     old = signal.signal(signal.SIGALRM, on_alarm)
-    signal.setitimer(signal.ITIMER_REAL, _HANG_LIMIT[0])
+    outer = signal.setitimer(signal.ITIMER_REAL, _HANG_LIMIT[0])
     try:
         yield
     finally:
         signal.setitimer(signal.ITIMER_REAL, 0)
         signal.signal(signal.SIGALRM, old)
+        if outer[0] > 0:
+            signal.setitimer(signal.ITIMER_REAL, *outer)      # a timer somebody else had armed is handed back
 
 
 def strict_diff(live, w):
@@ -197,21 +212,40 @@ def _run_history(spec):
     Rec = streams.Recorder
     if cfg.get("equal_sinks"):
         class Rec(streams.Recorder):
-            """Sinks that all compare equal and cannot be hashed (as results built on dataclasses or with a value-style
-            __eq__ are): the router has to tell them apart by identity."""
-            __hash__ = None
+            """Sinks that all compare equal (as results with a value-style __eq__ do) and, as the hash contract then
+            demands, hash alike: the router has to tell them apart by identity.  They stay hashable - every
+            StreamResult of the library is, and nothing says that a router may not keep its sinks in a set or dict."""
 
             def __eq__(self, other):
                 return isinstance(other, streams.Recorder)
+
+            def __hash__(self):
+                return 18
     sinks = [Rec("s%d" % i) for i in range(NSINK)]
     re_cfg = cfg.get("reentrant")
     fired = []
+    refused = {}         # "add_rule" / "status" -> the exception with which the router refused that nested call
+
+    def nothing_happened(before):
+        return [len(s.events) for s in sinks] == before
+
     if re_cfg:
         class Reentrant(Rec):
             def _maybe(self, when):
                 if re_cfg["when"] == when and not fired:
                     fired.append(when)
-                    router.add_rule(sinks[re_cfg["sink"]], "test_id", test_id=re_cfg["test_id"], do_start_stop_run=True)
+                    before = [len(s.events) for s in sinks]
+                    try:
+                        router.add_rule(sinks[re_cfg["sink"]], "test_id", test_id=re_cfg["test_id"], do_start_stop_run=True)
+                    except Exception as e:
+                        # A router may refuse add_rule while it is dispatching startTestRun / stopTestRun (the
+                        # statement orders add_rule relative to them, it does not nest them) - cleanly: nothing is
+                        # delivered and, as the model then assumes, no rule exists afterwards.  From inside status()
+                        # the class docstring promises that it works.
+                        if when == "status" or not nothing_happened(before):
+                            raise
+                        refused["add_rule"] = e
+                        return False
                     return True
                 return False
 
@@ -229,25 +263,40 @@ def _run_history(spec):
                                         mime_type, route_code, timestamp)
                 if test_id == re_cfg["test_id"] and self._maybe("status"):
                     # now that there is a rule for it, the event goes to the router once more, as it was received
-                    router.status(test_id=test_id, test_status=test_status, test_tags=test_tags, runnable=runnable,
-                                  file_name=file_name, file_bytes=file_bytes, eof=eof, mime_type=mime_type,
-                                  route_code=route_code, timestamp=timestamp)
+                    before = [len(s.events) for s in sinks]
+                    try:
+                        router.status(test_id=test_id, test_status=test_status, test_tags=test_tags, runnable=runnable,
+                                      file_name=file_name, file_bytes=file_bytes, eof=eof, mime_type=mime_type,
+                                      route_code=route_code, timestamp=timestamp)
+                    except Exception as e:
+                        # a router may refuse a nested status() (nothing promises re-entrancy) - without delivering
+                        if not nothing_happened(before):
+                            raise
+                        refused["status"] = e
         sinks[0] = Reentrant("s0")
     flag = int(cfg["fb_dssr"]) if cfg.get("truthy_flags") else cfg["fb_dssr"]
     ctor = cfg.get("ctor", "pos")
-    try:
+    def construct(flag):
         if cfg["fallback"] and cfg["fb_dssr"] and cfg.get("omit_defaults"):
             # do_start_stop_run defaults to True
-            router = StreamResultRouter(fallback=sinks[0]) if ctor == "kw" else StreamResultRouter(sinks[0])
-        elif cfg["fallback"]:
+            return StreamResultRouter(fallback=sinks[0]) if ctor == "kw" else StreamResultRouter(sinks[0])
+        if cfg["fallback"]:
             if ctor == "kw":
-                router = StreamResultRouter(fallback=sinks[0], do_start_stop_run=flag)
-            elif ctor == "pos2":
-                router = StreamResultRouter(sinks[0], flag)
-            else:
-                router = StreamResultRouter(sinks[0], do_start_stop_run=flag)
-        else:
-            router = StreamResultRouter()
+                return StreamResultRouter(fallback=sinks[0], do_start_stop_run=flag)
+            if ctor == "pos2":
+                return StreamResultRouter(sinks[0], flag)
+            return StreamResultRouter(sinks[0], do_start_stop_run=flag)
+        return StreamResultRouter()
+    try:
+        try:
+            router = construct(flag)
+        except Exception:
+            # "If True" / "If False" in the docstrings: a router that reads the flag by truthiness has to read 1 / 0
+            # like True / False, one that insists on real bools may refuse them - then it gets the bool
+            if type(flag) is bool:
+                raise
+            flag = bool(flag)
+            router = construct(flag)
     except Exception as e:
         # (a TypeError from argument binding has no frame inside the library: it must not end as a harness error)
         return Case([V("construct", "raises-%s" % type(e).__name__, "StreamResultRouter(%s fallback, flag %r, spelling %r) raised %r" % (
@@ -257,9 +306,18 @@ def _run_history(spec):
     dssr = [0] if cfg["fallback"] and cfg["fb_dssr"] else []
     want = [[] for _ in range(NSINK)]
     optional = {}        # sink -> index in want[sink] of a (startTestRun, stopTestRun) pair that may be absent
+    unsure = set()       # sinks whose start/stop calls are not compared
+    rejected = set()     # sinks of rules that were refused although they asked for start/stop
     in_run = False
     both = multi = midrun = False
     model_fired = []
+
+    def register(sink):
+        """The model's start/stop registration.  A sink that is registered twice (possible only after a router took a
+        multi-step prefix) is outside the ASSUMPTIONS: its start/stop calls are not compared."""
+        if sink in dssr:
+            unsure.add(sink)
+        dssr.append(sink)
 
     def model_status(exp):
         """Route one event (as a Recorder snapshot) through the reference router; False = no destination."""
@@ -286,10 +344,11 @@ def _run_history(spec):
             # sink 0 registers the rule (started at once when a run is in progress) and resubmits what it received
             model_fired.append(1)
             ids[re_cfg["test_id"]] = re_cfg["sink"]
-            dssr.append(re_cfg["sink"])
+            register(re_cfg["sink"])
             if in_run:
                 want[re_cfg["sink"]].append(("startTestRun",))
-            model_status(exp)
+            if "status" not in refused:
+                model_status(exp)
         return True
 
     for op in spec["ops"]:
@@ -307,13 +366,23 @@ def _run_history(spec):
             else:
                 pa = {"test_id": op["test_id"]}
                 policy = "test_id"
-            try:
+            def add(kw, pa):
                 if spell == "pos":
                     router.add_rule(sinks[op["sink"]], policy, kw["do_start_stop_run"], **pa)
                 elif spell == "named":
                     router.add_rule(sink=sinks[op["sink"]], policy=policy, **kw, **pa)
                 else:
                     router.add_rule(sinks[op["sink"]], policy, **kw, **pa)
+            try:
+                try:
+                    add(kw, pa)
+                except Exception:
+                    # flags given as 1 / 0 may be refused by a router that insists on real bools (see the constructor);
+                    # the refusal must have had no effect, the rule is then added with bools
+                    if not any(type(v) is int for d in (kw, pa) for v in d.values()):
+                        raise
+                    kw, pa = [{f: bool(v) if type(v) is int else v for f, v in d.items()} for d in (kw, pa)]
+                    add(kw, pa)
             except Exception as e:
                 # the histories that follow are meaningless once a legal rule has been refused
                 return Case(vs + [V("add_rule", "raises-%s" % type(e).__name__, "add_rule(%r, %r, %r), spelled %r, raised %r" % (
@@ -323,12 +392,12 @@ def _run_history(spec):
             else:
                 ids[op["test_id"]] = op["sink"]
             if op["dssr"]:
-                dssr.append(op["sink"])
+                register(op["sink"])
                 if in_run:
                     want[op["sink"]].append(("startTestRun",))
                     # ... and it has been started by the time add_rule returns, not at some later event
                     got_now = [e[0] for e in sinks[op["sink"]].events if e[0] == "startTestRun"]
-                    if len(got_now) != sum(1 for e in want[op["sink"]] if e[0] == "startTestRun"):
+                    if op["sink"] not in unsure and len(got_now) != sum(1 for e in want[op["sink"]] if e[0] == "startTestRun"):
                         vs.append(V("start-stop", "midrun-not-immediate", "a rule added during a run with do_start_stop_run=True: the sink had seen %d startTestRun calls when add_rule returned, expected %d" % (
                             len(got_now), sum(1 for e in want[op["sink"]] if e[0] == "startTestRun"))))
             if in_run:
@@ -343,9 +412,19 @@ def _run_history(spec):
                     router.add_rule(sinks[op["sink"]], "no-such-policy", do_start_stop_run=op["dssr"])
                 else:
                     router.add_rule(sinks[op["sink"]], "test_id", do_start_stop_run=op["dssr"], route_prefix="0")
-                vs.append(V("add_rule", "invalid-accepted", "add_rule accepted an invalid rule (%s)" % op["how"]))
+                if op["how"] == "multi-step-prefix":
+                    # Only the code says that such a prefix is refused.  A router that takes it has a rule that no
+                    # event can match (the rule for the FIRST segment is looked up, and a segment holds no "/"), whose
+                    # sink is registered for start/stop like that of any other rule.
+                    if op["dssr"]:
+                        register(op["sink"])
+                        if in_run:
+                            want[op["sink"]].append(("startTestRun",))
+                else:
+                    vs.append(V("add_rule", "invalid-accepted", "add_rule accepted an invalid rule (%s)" % op["how"]))
             except Exception:
-                pass
+                if op["dssr"]:
+                    rejected.add(op["sink"])
         elif k == "start":
             router.startTestRun()
             in_run = True
@@ -354,8 +433,10 @@ def _run_history(spec):
                 if re_cfg and s == 0 and re_cfg["when"] == "start" and not model_fired:
                     # registered while the run is being started: it is started in this run too, once
                     model_fired.append(1)
+                    if "add_rule" in refused:
+                        continue
                     ids[re_cfg["test_id"]] = re_cfg["sink"]
-                    dssr.append(re_cfg["sink"])
+                    register(re_cfg["sink"])
                     want[re_cfg["sink"]].append(("startTestRun",))
         elif k == "stop":
             router.stopTestRun()
@@ -366,8 +447,10 @@ def _run_history(spec):
                     # registered while the run is being closed: either still part of this run (started at once, and
                     # stopped with the run) or not (neither call) - see ASSUMPTIONS
                     model_fired.append(1)
+                    if "add_rule" in refused:
+                        continue
                     ids[re_cfg["test_id"]] = re_cfg["sink"]
-                    dssr.append(re_cfg["sink"])
+                    register(re_cfg["sink"])
                     optional[re_cfg["sink"]] = len(want[re_cfg["sink"]])
                     want[re_cfg["sink"]].append(("startTestRun",))
                     want[re_cfg["sink"]].append(("stopTestRun",))
@@ -397,8 +480,11 @@ def _run_history(spec):
                 vs.append(V("route", "raises-%s" % type(raised).__name__, "status(%r) raised %r" % (ev, raised)))
     for i, s in enumerate(sinks):
         got = s.events
-        gk = [e[0] for e in got]
         exp_i = want[i]
+        if i in unsure:
+            got = [e for e in got if e[0] == "status"]
+            exp_i = [e for e in exp_i if e[0] == "status"]
+        gk = [e[0] for e in got]
         if i in optional:
             alt = want[i][:optional[i]] + want[i][optional[i] + 2:]
             if gk != [e[0] for e in exp_i] and gk == [e[0] for e in alt]:
@@ -413,7 +499,9 @@ def _run_history(spec):
                         i, gs, ws, [sum(1 for e in x.events if e[0] == "status") for x in sinks],
                         [sum(1 for e in w if e[0] == "status") for w in want])))
                 else:
-                    vs.append(V("start-stop", "midrun" if midrun else "plain", "sink %d saw %r, model expects %r" % (i, gk, wk)))
+                    vs.append(V("start-stop", "midrun" if midrun else "plain", "sink %d saw %r, model expects %r%s" % (
+                        i, gk, wk, " (an add_rule for this sink with do_start_stop_run=True was refused during the history: "
+                        "a refused rule must leave no trace)" if i in rejected else "")))
             else:
                 for g, w in zip(got, exp_i):
                     if g != w:
